@@ -15,6 +15,10 @@ theorem Float64_premium_near (amt rate dur : Nat) :
 theorem Float64_rnd_mono (n1 d1 n2 d2 : Nat) (hd1 : 0 < d1) (hd2 : 0 < d2) (h : n1 * d2 ≤ n2 * d1) :
     (rnd n1 d1).val ≤ (rnd n2 d2).val := rnd_mono n1 d1 n2 d2 hd1 hd2 h
 
+/-- `LumpSumPremium` (the float computation, truncated) is monotone in amount, rate and duration -/
+theorem Float64_premium_mono {a a' r r' d d' : Nat} (ha : a ≤ a') (hr : r ≤ r') (hd : d ≤ d') :
+    premium a r d ≤ premium a' r' d' := premium_mono ha hr hd
+
 /-- a rounded positive value is a 53-bit significand: `2^52 ≤ m ≤ 2^53` -/
 theorem Float64_rnd_significand (n d : Nat) (hn : 0 < n) (hd : 0 < d) :
     2 ^ 52 ≤ (rnd n d).m ∧ (rnd n d).m ≤ 2 ^ 53 := rnd_sig_bounds n d hn hd
